@@ -165,6 +165,7 @@ func TestVerifTwccExec(t *testing.T) {
 			vfRunRecorder(&sc, out)
 		case "icpt":
 			out.Emit(vfM{"a": "reset", "lvl": "icpt", "rb": 0})
+			out.NewKept().Flush()
 			vfRunSender(t, &sc, out)
 		default:
 			t.Fatalf("VERIF-INFRA unknown level %q", sc.Lvl)
@@ -173,6 +174,8 @@ func TestVerifTwccExec(t *testing.T) {
 }
 
 func vfRunRecorder(sc *vfTwccScript, out *vfWriter) {
+	kept := out.NewKept()
+	defer kept.Flush()
 	r := NewRecorder(0x11223344)
 	base := sc.RB * 64000
 	for _, st := range sc.Steps {
@@ -181,7 +184,11 @@ func vfRunRecorder(sc *vfTwccScript, out *vfWriter) {
 			r.Record(0x55667788, st.W, base+st.T)
 			out.Emit(vfM{"a": "rec", "w": st.W, "t0": st.T, "t1": st.T})
 		case "build":
-			out.Emit(vfM{"a": "build", "out": vfLogPackets(r.BuildFeedbackPacket()), "fl": false})
+			pkts := r.BuildFeedbackPacket()
+			out.Emit(vfM{"a": "build", "out": vfLogPackets(pkts), "fl": false})
+			if len(pkts) <= 4 { // (huge histories: the rendering of thousands of statuses is not kept)
+				kept.Keep(func() any { return vfLogPackets(pkts) })
+			}
 		}
 	}
 }
